@@ -683,12 +683,13 @@ func rawCases() []rawCase {
 		{Name: "ok-form-with-charset", Method: "POST", Target: "/coll", Headers: hGet(form+"; charset=UTF-8", "GET"), Body: q, MustAccept: true},
 		{Name: "ok-plain-put", Method: "PUT", Target: "/coll?" + q, Headers: h(js, ""), Body: b, MustAccept: true},
 		{Name: "ok-plain-get", Method: "GET", Target: "/coll?" + q, Headers: hGet("", ""), Body: "", MustAccept: true},
-		// neither: the override header without a tunnelled body
+		// the override header on a POST without a tunnelled body: rejected since fix ee52010 (used to leave req.Body nil)
+		// neither: not a POST / no override header, passed through untouched
 		{Name: "override-on-get", Method: "GET", Target: "/coll?" + q, Headers: hGet("", "DELETE"), Body: ""},
-		{Name: "override-json-body", Method: "POST", Target: "/coll", Headers: h(js, "PUT"), Body: b},
-		{Name: "override-no-content-type", Method: "POST", Target: "/coll", Headers: h("", "PUT"), Body: b},
-		{Name: "override-text-plain", Method: "POST", Target: "/coll", Headers: h("text/plain", "PUT"), Body: b},
-		{Name: "override-get-no-content-type", Method: "POST", Target: "/coll", Headers: hGet("", "GET"), Body: ""},
+		{Name: "override-json-body", Method: "POST", Target: "/coll", Headers: h(js, "PUT"), Body: b, MustReject: true},
+		{Name: "override-no-content-type", Method: "POST", Target: "/coll", Headers: h("", "PUT"), Body: b, MustReject: true},
+		{Name: "override-text-plain", Method: "POST", Target: "/coll", Headers: h("text/plain", "PUT"), Body: b, MustReject: true},
+		{Name: "override-get-no-content-type", Method: "POST", Target: "/coll", Headers: hGet("", "GET"), Body: "", MustReject: true},
 		{Name: "multipart-without-override", Method: "POST", Target: "/coll", Headers: h(mp, ""), Body: part(form, q) + part(js, b) + closing()},
 	}
 }
